@@ -180,6 +180,16 @@ def p_lcat(I, a, n):
     return SV('slist', lt.lcat(x.t, y.t), extra={k: v for k, v in x.extra.items() if k != 'backref'})
 
 
+def p_ieee(I, a, n):
+    """E2: struct.unpack(fmt, b)[0] as an uninterpreted function of the format and the bytes"""
+    from .externals import ieee
+    return mk_real(ieee(a[0].t, _b(I, a[1])))
+
+
+def p_feq(I, a, n):
+    return mk_bool(as_real_term(a[0]) == as_real_term(a[1]))
+
+
 def p_kind_is(I, a, n):
     """kind_is(x, 'int' | 'real' | 'str' | 'bytes'): the kind of the (dynamically typed) value x on this path"""
     from .calls import literal_str
@@ -234,7 +244,14 @@ def p_cap(I, a, n):
     """cap(f, 'name'): the value of variable `name` captured by the closure value f (an int)"""
     from .calls import literal_str
     f, name = a
-    acc = z3.Function(f"cap_{literal_str(name)}", TY.Obj, z3.IntSort())
+    nm = literal_str(name)
+    con = I.registry.contract_for(f.extra.get('contract')) if f.extra.get('contract') else None
+    cty = con.captures.get(nm, 'int') if con is not None else 'int'
+    if cty != 'int':
+        # the same accessor term that a call through the function value uses for this captured variable
+        from .contract import capture_term
+        return capture_term(I, con.target, nm, cty, f)
+    acc = z3.Function(f"cap_{nm}", TY.Obj, z3.IntSort())
     return mk_int(acc(f.extra['id']))
 
 
@@ -255,4 +272,4 @@ def p_src_R(I, a, n):
 PRIMS = {'cap': p_cap, 'comparable': p_comparable, 'coerce_like': p_coerce_like, 'coercible': p_coercible, 'src_T': p_src_T, 'src_R': p_src_R, 'be': p_be, 'le': p_le, 'sl': p_sl, 'cat': p_cat, 'low': p_low, 'shr': p_shr, 'pow2': p_pow2, 'tb': p_tb,
          'tl': p_tl, 'bat': p_bat, 'rpow': p_rpow, 'rpow2': p_rpow2, 'bfind': p_bfind, 'band': p_band, 'bor': p_bor,
          'toreal': p_toreal, 'i2r': p_toreal, 'at': p_at, 'append': p_append, 'is_int_valued': p_is_int_valued,
-         'decode': p_decode, 'decodable': p_decodable, 'cls_is': p_cls_is, 'warned': p_warned, 'mset': p_mset, 'mdel': p_mdel, 'keys_of': p_keys_of, 'kind_is': p_kind_is, 'events': p_events, 'events0': p_events0, 'lcat': p_lcat}
+         'decode': p_decode, 'decodable': p_decodable, 'cls_is': p_cls_is, 'warned': p_warned, 'mset': p_mset, 'mdel': p_mdel, 'keys_of': p_keys_of, 'kind_is': p_kind_is, 'ieee': p_ieee, 'feq': p_feq, 'events': p_events, 'events0': p_events0, 'lcat': p_lcat}
